@@ -4,30 +4,43 @@ import Enc.Lemmas.ThriftRoundTripAux
 
 Main results (binary strict, binary non-strict, compact; decoder strict or not):
 
-  * `decode_norm`       `RTS ty v → |encode p ty v| + depth ty ≤ fuel →
-                           decode p strict fuel ty (encode p ty v ++ rest) (zeroOf ty) = ok (norm ty v, rest)`
-  * `fields_steps`      the per-field statement (mutual with `decode_norm`)
-  * `unmarshal_marshal` `RTS ty v → unmarshal p strict ty (marshal p ty v) = ok (norm ty v)` (in `ThriftRoundTrip`)
+  * `decode_norm`       `RTS ty v → d + nest ty ≤ maxDepth → |encode p ty v| + depth ty ≤ fuel →
+                           decode p strict d fuel ty (encode p ty v ++ rest) (zeroOf ty) = ok (norm ty v, rest)`
+  * `fields_steps`      the per-field statement (mutual with `decode_norm`), `d + nestFields fs ≤ maxDepth`
+  * `unmarshal_marshal` `RTS ty v → nest ty ≤ maxDepth → unmarshal p strict ty (marshal p ty v) = ok (norm ty v)`
+                        (in `ThriftRoundTrip`)
+
+`d` is the decoder's nesting counter (`flags.depth()`): since the fix 9c8d6b4 the decoder rejects a list / set / map /
+struct entered at depth ≥ maxDepth (= 10000, `Gen.c_thrift_maxDepth`), hence the hypothesis `d + nest ty ≤ maxDepth`
+(`nest ty` = number of nested containers of the type).
 -/
 namespace Enc.Lemmas.ThriftRoundTrip
 open Enc Enc.Model.Thrift Enc.Lemmas.ThriftPrim Enc.Lemmas.ThriftSkip
 
-theorem decode_map (p : Proto) (strict : Bool) (fuel : Nat) (kt vt : Ty) (b : Bytes) (cur : Val) :
-    decode p strict (fuel + 1) (.map kt vt) b cur =
+theorem decode_map (p : Proto) (strict : Bool) (d fuel : Nat) (kt vt : Ty) (b : Bytes) (cur : Val) :
+    decode p strict d (fuel + 1) (.map kt vt) b cur =
       if isEmptyStruct vt then
         (rList p b).bind fun ((st, n), r) =>
           let st := if st == .true_ then TType.bool else st
           if n == 0 then .ok (.map .nil, r)
-          else if typeOf kt != st then (if strict then .err "typeMismatch" else .ok (.map .nil, r))
-          else decodeSet p strict fuel kt n r .nil
+          else if typeOf kt != st then
+            (if strict then .err "typeMismatch"
+             else (skipN p (d + 1) fuel st n r).bind fun (_, r) => .ok (.map .nil, r))
+          else if tooDeep d then .err "maxDepth"
+          else decodeSet p strict (d + 1) fuel kt n r .nil
       else
         (rMap p b).bind fun ((k, v, n), r) =>
           let k := if k == .true_ then TType.bool else k
           let v := if v == .true_ then TType.bool else v
           if n == 0 then .ok (.map .nil, r)
-          else if typeOf kt != k then (if strict then .err "typeMismatch" else .ok (.map .nil, r))
-          else if typeOf vt != v then (if strict then .err "typeMismatch" else .ok (.map .nil, r))
-          else decodeMap p strict fuel kt vt n r .nil := by
+          else if typeOf kt != k then
+            (if strict then .err "typeMismatch"
+             else (skipPairs p (d + 1) fuel k v n r).bind fun (_, r) => .ok (.map .nil, r))
+          else if typeOf vt != v then
+            (if strict then .err "typeMismatch"
+             else (skipPairs p (d + 1) fuel k v n r).bind fun (_, r) => .ok (.map .nil, r))
+          else if tooDeep d then .err "maxDepth"
+          else decodeMap p strict (d + 1) fuel kt vt n r .nil := by
   simp only [decode]
 
 theorem length_flatten_le {α} (l : List (List α)) (a : List α) (h : a ∈ l) : a.length ≤ l.flatten.length := by
@@ -41,19 +54,21 @@ theorem length_flatten_le {α} (l : List (List α)) (a : List α) (h : a ∈ l) 
 
 mutual
 /-- **Round trip through the decoder** on the universe `RTS` (structs, sets, maps, lists, pointers, named types over the
-scalar kinds), started on the zero value: the result is the normal form `norm ty v`. Fuel: output length + type depth. -/
+scalar kinds), started on the zero value at any nesting depth `d` that leaves room for the containers of the type
+(`d + nest ty ≤ maxDepth`; deeper types are rejected by the decoder): the result is the normal form `norm ty v`.
+Fuel: output length + type depth. -/
 theorem decode_norm (p : Proto) (strict : Bool) : (ty : Ty) → (v : Val) → RTS ty v = true →
-    ∀ (fuel : Nat) (rest : Bytes), (encode p ty v).length + depth ty ≤ fuel →
-      decode p strict fuel ty (encode p ty v ++ rest) (zeroOf ty) = .ok (norm ty v, rest)
+    ∀ (d fuel : Nat) (rest : Bytes), d + nest ty ≤ Gen.c_thrift_maxDepth → (encode p ty v).length + depth ty ≤ fuel →
+      decode p strict d fuel ty (encode p ty v ++ rest) (zeroOf ty) = .ok (norm ty v, rest)
   | .bool, v, h => by
-    intro fuel rest hf
+    intro d fuel rest hd hf
     simp only [RTS] at h
     cases v <;> simp [boolOK] at h
     simp only [depth] at hf
     obtain ⟨f, rfl⟩ : ∃ f, fuel = f + 1 := ⟨fuel - 1, by omega⟩
     simp only [decode, encode, rBool_wBool, Res.bind, norm]
   | .int k, v, h => by
-    intro fuel rest hf
+    intro d fuel rest hd hf
     simp only [RTS] at h
     cases v <;> simp only [intOK, Bool.false_eq_true] at h
     rename_i i
@@ -68,21 +83,21 @@ theorem decode_norm (p : Proto) (strict : Bool) : (ty : Ty) → (v : Val) → RT
     · rw [rI32_wI32 p i ⟨by omega, by omega⟩]; rfl
     · rw [rI64_wI64 p i ⟨by omega, by omega⟩]; rfl
   | .f32, v, h | .f64, v, h => by
-    intro fuel rest hf
+    intro d fuel rest hd hf
     simp only [RTS] at h
     cases v <;> simp [floatOK] at h
     simp only [depth] at hf
     obtain ⟨f, rfl⟩ : ∃ f, fuel = f + 1 := ⟨fuel - 1, by omega⟩
     simp only [decode, encode, rDouble_wDouble p _ h, Res.bind, norm]
   | .str, v, h => by
-    intro fuel rest hf
+    intro d fuel rest hd hf
     simp only [RTS] at h
     cases v <;> simp [strOK] at h
     simp only [depth] at hf
     obtain ⟨f, rfl⟩ : ∃ f, fuel = f + 1 := ⟨fuel - 1, by omega⟩
     simp only [decode, encode, rBytes_wBytes p _ h, Res.bind, norm]
   | .bytes, v, h => by
-    intro fuel rest hf
+    intro d fuel rest hd hf
     simp only [RTS] at h
     simp only [depth] at hf
     obtain ⟨f, rfl⟩ : ∃ f, fuel = f + 1 := ⟨fuel - 1, by omega⟩
@@ -90,9 +105,10 @@ theorem decode_norm (p : Proto) (strict : Bool) : (ty : Ty) → (v : Val) → RT
     · simp only [decode, encode, rBytes_wBytes p _ h, Res.bind, norm]
     · simp only [decode, encode, rBytes_wBytes p [] (by simp), Res.bind, norm]
   | .slice t, v, h => by
-    intro fuel rest hf
+    intro d fuel rest hd hf
     rw [RTS_slice] at h
     rw [depth_slice] at hf
+    rw [nest_slice] at hd
     obtain ⟨f, rfl⟩ : ∃ f, fuel = f + 1 := ⟨fuel - 1, by omega⟩
     rw [decode_slice, norm_slice]
     rw [encode_slice] at hf ⊢
@@ -101,35 +117,40 @@ theorem decode_norm (p : Proto) (strict : Bool) : (ty : Ty) → (v : Val) → RT
       cases v <;> simp [bytesOK] at h
       · simp only [rBytes_wBytes p _ h, Res.bind]
       · simp only [rBytes_wBytes p [] (by simp), Res.bind]
-    · simp only [hu, Bool.false_eq_true, if_false, Bool.and_eq_true] at h hf ⊢
+    · simp only [hu, Bool.false_eq_true, if_false, Bool.and_eq_true] at h hf hd ⊢
       obtain ⟨hreal, h⟩ := h
       have hnt : (typeOf t == TType.true_) = false := by simpa using typeOf_ne_true t
+      have htd : tooDeep d = false := tooDeep_false d (by omega)
       cases v <;> simp only [listOK, Bool.false_eq_true] at h
       · -- nil slice: written as an empty list, read back as an empty non-nil slice
         simp only at hf ⊢
         rw [rList_wList p _ _ hreal (by omega)]
-        simp only [Res.bind, hnt, Bool.false_eq_true, if_false, bne_self_eq_false]
+        simp only [Res.bind, hnt, Bool.false_eq_true, if_false, bne_self_eq_false, htd]
         obtain ⟨g, rfl⟩ : ∃ g, f = g + 1 := ⟨f - 1, by omega⟩
         simp [decodeList, Vals.ofList]
       · rename_i vs
         simp only [Bool.and_eq_true, decide_eq_true_eq] at h hf ⊢
         obtain ⟨hlen, hall⟩ := h
         rw [List.append_assoc, rList_wList p _ _ hreal hlen]
-        simp only [Res.bind, hnt, Bool.false_eq_true, if_false, bne_self_eq_false]
+        simp only [Res.bind, hnt, Bool.false_eq_true, if_false, bne_self_eq_false, htd]
         rw [length_toList vs]
         simp only [List.length_append] at hf
-        rw [decodeList_norm p strict t (norm t) (depth t) vs.toList
+        rw [decodeList_norm p strict (d + 1) t (norm t) (depth t) vs.toList
           (fun a ha => encode_pos p t a (all_toList _ _ hall a ha))
-          (fun a ha fuel rest hfa => decode_norm p strict t a (all_toList _ _ hall a ha) fuel rest hfa)
+          (fun a ha fuel rest hfa =>
+            decode_norm p strict t a (all_toList _ _ hall a ha) (d + 1) fuel rest (by omega) hfa)
           f rest [] (by omega)]
         simp
   | .map k v, x, h => by
-    intro fuel rest hf
+    intro d fuel rest hd hf
     rw [RTS_map] at h
     simp only [Bool.and_eq_true, decide_eq_true_eq] at h
     obtain ⟨⟨⟨⟨⟨hk, hv⟩, _⟩, hlen⟩, hall⟩, hnd⟩ := h
     have hall' := all_toList _ _ hall
     simp only [depth] at hf
+    simp only [nest] at hd
+    have htd : tooDeep d = false := tooDeep_false d (by omega)
+    have hnk : d + 1 + nest k ≤ Gen.c_thrift_maxDepth := by split at hd <;> omega
     obtain ⟨f, rfl⟩ : ∃ f, fuel = f + 1 := ⟨fuel - 1, by omega⟩
     rw [decode_map, norm_map]
     rw [encode_map] at hf ⊢
@@ -141,26 +162,27 @@ theorem decode_norm (p : Proto) (strict : Bool) : (ty : Ty) → (v : Val) → RT
       simp only [Bool.and_eq_true] at this
       exact encode_pos p k a.1 this.1
     have hkdec : ∀ a ∈ ps, ∀ fuel rest, (encode p k a.1).length + max (depth k) (depth v) ≤ fuel →
-        decode p strict fuel k (encode p k a.1 ++ rest) (zeroOf k) = .ok (norm k a.1, rest) := by
+        decode p strict (d + 1) fuel k (encode p k a.1 ++ rest) (zeroOf k) = .ok (norm k a.1, rest) := by
       intro a ha fuel rest hfa
       have := hall' a ha
       simp only [Bool.and_eq_true] at this
-      exact decode_norm p strict k a.1 this.1 fuel rest (by have := Nat.le_max_left (depth k) (depth v); omega)
+      exact decode_norm p strict k a.1 this.1 (d + 1) fuel rest (by omega)
+        (by have := Nat.le_max_left (depth k) (depth v); omega)
     by_cases he : isEmptyStruct v = true
     · simp only [he, if_true] at hf ⊢
       simp only [List.length_append] at hf
       rw [List.append_assoc, rList_wList p _ _ hk hlen]
-      simp only [Res.bind, hntk, Bool.false_eq_true, if_false, bne_self_eq_false]
+      simp only [Res.bind, hntk, Bool.false_eq_true, if_false, bne_self_eq_false, htd]
       cases ps with
       | nil => simp [flat_nil]
       | cons a l =>
         have hn0 : ((a :: l).length == 0) = false := by simp
         simp only [hn0, Bool.false_eq_true, if_false]
-        have := decodeSet_norm p strict k (norm k) (max (depth k) (depth v)) (a :: l) [] hkpos hkdec
+        have := decodeSet_norm p strict (d + 1) k (norm k) (max (depth k) (depth v)) (a :: l) [] hkpos hkdec
           (by simpa using hnd) f rest (by omega)
         rw [flat_nil] at this
         rw [this]; simp
-    · simp only [he, Bool.false_eq_true, if_false] at hf ⊢
+    · simp only [he, Bool.false_eq_true, if_false] at hf hd ⊢
       simp only [List.length_append] at hf
       rw [List.append_assoc, rMap_wMap p _ _ _ hk hv hlen]
       simp only [Res.bind]
@@ -170,19 +192,20 @@ theorem decode_norm (p : Proto) (strict : Bool) : (ty : Ty) → (v : Val) → RT
         have hne : ¬ (p = .compact ∧ (a :: l).length = 0) := by simp
         have hn0 : ((a :: l).length == 0) = false := by simp
         have hntv : (typeOf v == TType.true_) = false := by simpa using typeOf_ne_true v
-        simp only [hne, if_false, hn0, Bool.false_eq_true, hntk, hntv, bne_self_eq_false]
+        simp only [hne, if_false, hn0, Bool.false_eq_true, hntk, hntv, bne_self_eq_false, htd]
         have hvdec : ∀ b ∈ a :: l, ∀ fuel rest, (encode p v b.2).length + max (depth k) (depth v) ≤ fuel →
-            decode p strict fuel v (encode p v b.2 ++ rest) (zeroOf v) = .ok (norm v b.2, rest) := by
+            decode p strict (d + 1) fuel v (encode p v b.2 ++ rest) (zeroOf v) = .ok (norm v b.2, rest) := by
           intro b hb fuel rest hfa
           have := hall' b hb
           simp only [Bool.and_eq_true, he, Bool.false_or] at this
-          exact decode_norm p strict v b.2 this.2 fuel rest (by have := Nat.le_max_right (depth k) (depth v); omega)
-        have := decodeMap_norm p strict k v (norm k) (norm v) (max (depth k) (depth v)) (a :: l) [] hkpos hkdec hvdec
+          exact decode_norm p strict v b.2 this.2 (d + 1) fuel rest (by omega)
+            (by have := Nat.le_max_right (depth k) (depth v); omega)
+        have := decodeMap_norm p strict (d + 1) k v (norm k) (norm v) (max (depth k) (depth v)) (a :: l) [] hkpos hkdec hvdec
           (by simpa using hnd) f rest (by omega)
         rw [flat_nil] at this
         rw [this]; simp
   | .struct fs, v, h => by
-    intro fuel rest hf
+    intro d fuel rest hd hf
     simp only [RTS, Bool.and_eq_true] at h
     obtain ⟨hids, h⟩ := h
     cases v <;> simp only [structOK, Bool.false_eq_true] at h
@@ -190,39 +213,45 @@ theorem decode_norm (p : Proto) (strict : Bool) : (ty : Ty) → (v : Val) → RT
     rw [depth_struct] at hf
     rw [encode_struct] at hf ⊢
     simp only [List.length_append] at hf
+    simp only [nest] at hd
+    have htd : tooDeep d = false := tooDeep_false d (by omega)
     have hstop := wStopField_length_pos p
     obtain ⟨f, rfl⟩ : ∃ f, fuel = f + 1 := ⟨fuel - 1, by omega⟩
-    obtain ⟨seen, hdec, hreq⟩ := decodeStruct_fields p strict fs vs hids h (fields_steps p strict fs vs h) f rest
-      (by omega)
-    simp only [decode, zeroOf, List.append_assoc, hdec, Res.bind, hreq, norm]
-    simp
+    obtain ⟨seen, hdec, hreq⟩ := decodeStruct_fields p strict (d + 1) fs vs hids h
+      (fields_steps p strict fs vs h (d + 1) (by omega)) f rest (by omega)
+    simp only [decode, htd, Bool.false_eq_true, if_false, zeroOf, List.append_assoc, hdec, Res.bind, hreq, norm]
   | .ptr t, v, h => by
-    intro fuel rest hf
+    intro d fuel rest hd hf
     simp only [RTS] at h
     simp only [depth] at hf
+    simp only [nest] at hd
     obtain ⟨f, rfl⟩ : ∃ f, fuel = f + 1 := ⟨fuel - 1, by omega⟩
     cases v <;> simp only [ptrOK, Bool.false_eq_true] at h <;> simp only [encode] at hf ⊢ <;>
       simp only [decode, zeroOf, norm]
-    · rw [decode_norm p strict t _ h f rest (by omega)]; rfl
-    · rw [decode_norm p strict t _ h f rest (by omega)]; rfl
+    · rw [decode_norm p strict t _ h d f rest hd (by omega)]; rfl
+    · rw [decode_norm p strict t _ h d f rest hd (by omega)]; rfl
   | .named _ t, v, h => by
-    intro fuel rest hf
+    intro d fuel rest hd hf
     simp only [RTS] at h
     simp only [depth, encode] at hf
+    simp only [nest] at hd
     obtain ⟨f, rfl⟩ : ∃ f, fuel = f + 1 := ⟨fuel - 1, by omega⟩
     simp only [decode, encode, zeroOf, norm]
-    exact decode_norm p strict t v h f rest (by omega)
+    exact decode_norm p strict t v h d f rest hd (by omega)
   | .arr _ _, _, h | .any, _, h => by simp [RTS] at h
-/-- every emitted field of a struct value of the universe round-trips as the struct decoder reads it -/
+/-- every emitted field of a struct value of the universe round-trips as the struct decoder reads it, at any depth `d`
+(of the fields) that leaves room for the containers of the field types -/
 theorem fields_steps (p : Proto) (strict : Bool) : (fs : Fields) → (vs : Vals) → RTSFields fs vs = true →
-    AllSteps p strict fs vs
+    ∀ (d : Nat), d + nestFields fs ≤ Gen.c_thrift_maxDepth → AllSteps p strict d fs vs
   | .nil, _, _ => by simp [AllSteps]
   | .cons _ _ _ _ _, .nil, _ => by simp [AllSteps]
   | .cons n tag e t rest, .cons x vs, h => by
+    intro d hd
+    simp only [nestFields] at hd
     rw [RTSFields_cons] at h
     simp only [Bool.and_eq_true] at h
     obtain ⟨⟨hrest, _⟩, hfield⟩ := h
-    refine ⟨?_, fields_steps p strict rest vs hrest⟩
+    refine ⟨?_, fields_steps p strict rest vs hrest d (by omega)⟩
     cases hem : emitted tag t x with
     | none => trivial
     | some y =>
@@ -255,7 +284,7 @@ theorem fields_steps (p : Proto) (strict : Bool) : (fs : Fields) → (vs : Vals)
             · cases hen
         subst hen'
         simp only [fieldBody, Bool.false_eq_true, if_false] at hfu ⊢
-        exact decode_norm p strict t x hx fuel rs hfu
+        exact decode_norm p strict t x hx d fuel rs (by omega) hfu
 end
 
 end Enc.Lemmas.ThriftRoundTrip
